@@ -20,6 +20,7 @@ CLAIMED = {
  "C10": ("DESIGN §6 C10", "generated programs (plain, tagged, loops, stop conditions) are prepared under seeded map-iteration orders (the only nondeterminism Prepare has); structural oracle (no schedule in it, labelled as such): for every consumer node the dependencies read from ExecutableWorkflow.DAG(), followed through dependency-group nodes and classified (required / one-of / wait-optional / soft-optional), equal the set derived from the IR, lifecycle edges equal the providers' NextStages, nothing else; single-point corruptions (dangling step/stage/output/input field, wrong literal type, missing required input, unknown key, self-cycle, back-edge) are rejected with zero run deployments and every schema probe closed. The behavioural half (starved producers, unrelated never-ending step) is exercised by C02 and C01"),
  "C16": ("DESIGN §6 C16", "each generated program is prepared 3-6 times in one simulated run under different seeded map-iteration orders (which the native runtime cannot replay), with textual permutations of steps / outputs / input fields and a consistent renaming of all steps; oracle: same verdict, and after undoing the renaming and canonicalising generated ids the same dependency graph (nodes, classified edges), output schemas (self-serialised) and namespaces"),
  "C20": ("DESIGN §6 C20", "generated workflow trees (loops nested up to depth 3, sub-workflows in sub-directories, shared sub-workflow files, outputs named success / error / fallback / other, explicit output schemas with either error flag) are written to a temporary directory and run through engine.New -> RunWorkflow and Parse+Run with the deployer registry replaced by the simulated one, from absolute and relative context directories and different working directories, under seeded file-map orders and schedules, with missing / unreadable sub-workflow files; oracle: same id and data as Prepare+Execute of the same text and as the reference model, error flag <=> declared (or, if inferred, named) error output, file faults give an error, never a panic or hang"),
+ "C17": ("DESIGN §6 C17", "R-mode: the generators of C14/C05/C13/C06/C12 (overlapping runs, 1-3 overlapping preparations, cancellation and close at any time, loops, direct provider histories) are executed un-serialised in a -race build inside synctest bubbles at GOMAXPROCS 16 and 4 with seeded Gosched perturbation at the instrumented sync points; oracle: the Go race detector; a report is a violation when one of its stacks contains an engine frame; reports are identified by the pair of (access function <- first engine function)"),
 }
 NA = {
  "C11": "pure totality claim over byte strings: no schedule, clock, fault or interleaving in it (input fuzzing is a different technique); see DESIGN §7",
